@@ -3,6 +3,7 @@ CONSTANTS
   File <- FilesD
   FDataSeq <- DataD
   FOther <- OtherD
+  FSplit <- SplitD
   Caps <- GenCaps
 VIEW EdgeView
 INVARIANT EmitAll
